@@ -12,7 +12,13 @@ OPS = {'select': 'OSelect', 'load': 'OSelect', 'forupd': 'OForUpd', 'qforupd': '
        'flush': 'OFlush', 'rawwrite': 'ORawWrite', 'rawupdate': 'ORawWrite', 'ddlwrite': 'ORawWrite', 'commit': 'OCommit', 'rollback': 'ORollback',
        'dbcommit': 'ODbCommit', 'dbrollback': 'ODbRollback', 'raise': 'ORaise', 'getconn': 'OGetConn'}
 EXC = {'none': 'Ok', 'EDb': '(Err EDb)', 'EDrv': '(Err EDrv)', 'Other:UnexpectedError': '(Err EUnexp)', 'ECommit': '(Err ECommit)', 'ERollback': '(Err ERollback)',
-       'EBody': '(Err EBody)', 'EAssert': '(Err EAssert)', 'EConnClosed': '(Err EConnClosed)', 'ERuntime': '(Err ERuntime)'}
+       'EBody': '(Err EBody)', 'Other:AttributeError': '(Err EAttr)', 'EAssert': '(Err EAssert)', 'EConnClosed': '(Err EConnClosed)', 'ERuntime': '(Err ERuntime)'}
+
+
+OUT = dict(EXC, ok='Ok')
+
+
+START = {'pooled': 'st_pooled', 'none': 'st_disconnected', 'fresh': 'st_empty'}
 
 
 class Unmodelled(Exception):
@@ -24,7 +30,7 @@ def cb(b): return 'true' if b else 'false'
 
 def run_driver(payload, timeout=900):
     """tools/c19_driver.py in a fresh interpreter (it monkey-patches pony.orm.dbproviders.sqlite.sqlite and starts threads)."""
-    tmp = '/tmp/builder-c19-run'
+    tmp = '/dev/shm/builder-c19-run' if os.path.isdir('/dev/shm') and os.access('/dev/shm', os.W_OK) else '/tmp/builder-c19-run'
     os.makedirs(tmp, exist_ok=True)
     payload = dict(payload, tmp=tmp)
     return vlib.run_impl('c19_driver.py', payload, timeout=timeout)
@@ -79,7 +85,7 @@ def coq_observation(out):
 
 def coq_case(case, out):
     """bool: the model run on the same sessions and faults yields exactly the implementation's observation."""
-    start = 'st_pooled' if case.get('start', 'pooled') == 'pooled' else 'st_empty'
+    start = START[case.get('start', 'pooled')]
     return 'obs_eqb (observe (run_sessions (faults_oracle %s) %s %s)) (%s)' % (
         coq_faults(case.get('faults', [])), coq_sessions(case), start, coq_observation(out))
 
@@ -107,7 +113,7 @@ def run_bools(ctx, exprs, chunk=400, name='cases', header=HEADER):
 
 def model_observation(ctx, case):
     """Ask Coq for the model's observation of one case (debugging aid for disagreements; small output)."""
-    start = 'st_pooled' if case.get('start', 'pooled') == 'pooled' else 'st_empty'
+    start = START[case.get('start', 'pooled')]
     text = HEADER + 'Eval vm_compute in (observe (run_sessions (faults_oracle %s) %s %s)).\n' % (
         coq_faults(case.get('faults', [])), coq_sessions(case), start)
     out = vlib.coq_eval(ctx, text, name='dbg')
@@ -166,7 +172,13 @@ def session_anomalies(case, out):
     if out.get('follow_other') != 'ok':
         res.append(('following-session-other-thread-%s:%s' % (out.get('follow_other'), where), 'a following session in another thread does not work: %s (%s, faults [%s] = %s)' % (out.get('follow_other'), tag, faults, where)))
     if out.get('follow_same') not in ('ok',):
-        res.append(('following-session-same-thread-%s:%s' % (out.get('follow_same'), where), 'a following session in the same thread does not work: %s (%s, faults [%s] = %s)' % (out.get('follow_same'), tag, faults, where)))
+        pr = out.get('pragmas')
+        if out.get('follow_same') == 'exc:AttributeError' and case.get('start') == 'fresh' and a['pool'] is not None and pr and (pr.get('fk') != 1 or pr.get('case_sensitive_like') != 1):
+            res.append(('later-sessions-fail-after-failed-connection-init:AttributeError-pool-pid',
+                        'in a thread that never connected before, after a failed connection initialisation every later session fails with '
+                        "AttributeError: 'SQLitePool' object has no attribute 'pid' (%s, faults [%s] = %s)" % (tag, faults, where)))
+        else:
+            res.append(('following-session-same-thread-%s:%s' % (out.get('follow_same'), where), 'a following session in the same thread does not work: %s (%s, faults [%s] = %s)' % (out.get('follow_same'), tag, faults, where)))
     return res
 
 
@@ -229,16 +241,16 @@ def session_base_cases(ctx, deep=False):
     base = []
     for shape, progs in TEMPLATES.items():
         for name, ops in progs:
-            for start in ('pooled', 'none'):
+            for start in ('pooled', 'none', 'fresh'):
                 base.append({'shape': shape, 'start': start, 'ops': ops, 'faults': [], 'name': '%s/%s' % (shape, name)})
     nrand = ctx.scale(10, 60) if not deep else 80
     for k in range(nrand):
         shape = ctx.rng.choice(['opt', 'opt', 'imm', 'ser', 'ddl', 'nonopt'])
-        base.append({'shape': shape, 'start': ctx.rng.choice(['pooled', 'none']), 'ops': random_body(ctx.rng, shape, ctx.rng.randrange(1, 7)),
+        base.append({'shape': shape, 'start': ctx.rng.choice(['pooled', 'none', 'fresh']), 'ops': random_body(ctx.rng, shape, ctx.rng.randrange(1, 7)),
                      'faults': [], 'name': 'random%d' % k})
     for k in range(ctx.scale(6, 30)):
         s1, s2 = ctx.rng.choice(['opt', 'imm', 'ser', 'ddl']), ctx.rng.choice(['opt', 'imm', 'ser', 'ddl'])
-        base.append({'shape': s1, 'start': ctx.rng.choice(['pooled', 'none']), 'ops': random_body(ctx.rng, s1, 3),
+        base.append({'shape': s1, 'start': ctx.rng.choice(['pooled', 'none', 'fresh']), 'ops': random_body(ctx.rng, s1, 3),
                      'more': [[s2, random_body(ctx.rng, s2, 3)]], 'faults': [], 'name': 'seq%d' % k})
     return base
 
@@ -246,7 +258,7 @@ def session_base_cases(ctx, deep=False):
 def session_fault_cases(ctx, base, outs, deep=False):
     """every single fault index of every base case; pairs (k, j) with j after k; some seeded triples."""
     cases = []
-    pair_budget = ctx.scale(6, 40) if not deep else 60
+    pair_budget = ctx.scale(4, 40) if not deep else 60
     for c, o in zip(base, outs):
         if 'harness_error' in o: continue
         n = o['sessions'][-1]['calls']
@@ -257,7 +269,7 @@ def session_fault_cases(ctx, base, outs, deep=False):
             pairs = ctx.rng.sample(pairs, pair_budget)
         for k, j in sorted(pairs):
             cases.append(dict(c, faults=[k, j]))
-        for _ in range(ctx.scale(2, 10)):
+        for _ in range(ctx.scale(1, 10)):
             cases.append(dict(c, faults=sorted(set(ctx.rng.randrange(0, n + 4) for _ in range(3)))))
     return cases
 
@@ -333,6 +345,8 @@ Definition event_eqb_nl (a b : event) : bool :=
   call_eqb (e_call a) (e_call b) && (e_con a =? e_con b) && eqb (e_ok a) (e_ok b) && eqb (e_txn a) (e_txn b) &&
   (if e_mine a then e_lock a && e_lock b else true).
 Definition ores_eqb (r : res) (o : option res) : bool := match o with None => negb (res_eqb r Blocked) | Some x => res_eqb r x end.
+Fixpoint list_eqb2 {A B} (f : A -> B -> bool) (l1 : list A) (l2 : list B) : bool :=
+  match l1, l2 with [], [] => true | x :: l1', y :: l2' => f x y && list_eqb2 f l1' l2' | _, _ => false end.
 Fixpoint grun_res (orc : nat -> nat -> bool) (g : gstate) (l : list (nat * action)) : list res * gstate :=
   match l with
   | [] => ([], g)
@@ -342,7 +356,7 @@ Fixpoint grun_res (orc : nat -> nat -> bool) (g : gstate) (l : list (nat * actio
 Definition thread_case (orc : nat -> nat -> bool) (sh : nat -> shape) (l : list (nat * action)) (expect : list (option res))
                        (lock_after : bool) (traces : list (nat * list event)) : bool :=
   let (rs, g) := grun_res orc (g_init sh) l in
-  list_eqb ores_eqb rs expect && eqb (fst g) lock_after &&
+  list_eqb2 ores_eqb rs expect && eqb (fst g) lock_after &&
   forallb (fun it => list_eqb event_eqb_nl (rev (trace (snd g (fst it)))) (snd it)) traces.
 '''
 
@@ -365,12 +379,12 @@ def coq_thread_case(case, out):
             sched.append('(%d, AExit %s %s)' % (t, cb(op == 'exit_exc'), SHAPES[nxt]))
             if outcome == 'blocked': expect.append('(Some Blocked)')
             elif op == 'exit_exc': expect.append('None')
-            elif outcome in EXC: expect.append('(Some %s)' % EXC[outcome])
+            elif outcome in OUT: expect.append('(Some %s)' % OUT[outcome])
             else: raise Unmodelled('outcome %r of exit' % outcome)
         else:
             sched.append('(%d, AOp %s)' % (t, OPS[op]))
             if outcome == 'blocked': expect.append('(Some Blocked)')
-            elif outcome in EXC: expect.append('(Some %s)' % EXC[outcome])
+            elif outcome in OUT: expect.append('(Some %s)' % OUT[outcome])
             else: raise Unmodelled('outcome %r of %s' % (outcome, op))
     orc = nat_fun({int(t): v for t, v in case.get('faults', {}).items()}, 'faults_oracle []', lambda v: 'faults_oracle %s' % coq_faults(v))
     sh = nat_fun(first_shape, 'ShOpt', lambda v: SHAPES[v])
